@@ -128,14 +128,28 @@ func (txn *writeTxnState) modify(meta TableMeta, guardRevision Revision, newData
 	if !table.locked {
 		return object{}, false, nil, tableError(tableName, ErrTableNotLockedForWriting)
 	}
-	oldRevision := table.revision
+	idIndexTxn := txn.mustIndexWriteTxn(meta, PrimaryIndexPos)
+	idKey := idIndexTxn.objectToKey(object{data: newData})
+
+	// For CompareAndSwap() validate against the given guard revision before
+	// modifying anything. A rejected operation must not leave a trace: reverting
+	// a speculative insert would still mark the index as changed and close the
+	// watch channels without anything having changed.
+	if guardRevision > 0 {
+		oldObj, _, oldExists := idIndexTxn.get(idKey)
+		if !oldExists {
+			return object{}, false, nil, ErrObjectNotFound
+		}
+		if oldObj.revision != guardRevision {
+			return oldObj, true, nil, ErrRevisionNotEqual
+		}
+	}
+
 	table.revision++
 	revision := table.revision
 
 	// Update the primary index first
 	obj := object{data: newData, revision: revision}
-	idIndexTxn := txn.mustIndexWriteTxn(meta, PrimaryIndexPos)
-	idKey := idIndexTxn.objectToKey(obj)
 
 	var (
 		oldObj    object
@@ -161,25 +175,6 @@ func (txn *writeTxnState) modify(meta TableMeta, guardRevision Revision, newData
 					"Insert() of the same object (%T) back into the table. Is the immutable object being mutated?",
 					obj.data))
 			}
-		}
-	}
-
-	// For CompareAndSwap() validate against the given guard revision
-	if guardRevision > 0 {
-		if !oldExists {
-			// CompareAndSwap requires the object to exist. Revert
-			// the insert.
-			idIndexTxn.delete(idKey)
-			table.revision = oldRevision
-			return object{}, false, watch, ErrObjectNotFound
-		}
-		if oldObj.revision != guardRevision {
-			// Revert the change. We're assuming here that it's rarer for CompareAndSwap() to
-			// fail and thus we're optimizing to have only one lookup in the common case
-			// (versus doing a Get() and then Insert()).
-			idIndexTxn.insert(idKey, oldObj)
-			table.revision = oldRevision
-			return oldObj, true, watch, ErrRevisionNotEqual
 		}
 	}
 
@@ -253,18 +248,18 @@ func (txn *writeTxnState) delete(meta TableMeta, guardRevision Revision, data an
 	// compute the primary key.
 	idIndex := txn.mustIndexWriteTxn(meta, PrimaryIndexPos)
 	idKey := idIndex.objectToKey(object{data: data})
+
+	// For CompareAndDelete() validate against the guard revision before deleting
+	// so that a rejected operation changes nothing (and closes no watch channels).
+	if guardRevision > 0 {
+		if obj, _, existed := idIndex.get(idKey); existed && obj.revision != guardRevision {
+			return obj, true, ErrRevisionNotEqual
+		}
+	}
+
 	obj, existed := idIndex.delete(idKey)
 	if !existed {
 		return object{}, false, nil
-	}
-
-	// For CompareAndDelete() validate against guard revision and if there's a mismatch,
-	// revert the change.
-	if guardRevision > 0 {
-		if obj.revision != guardRevision {
-			idIndex.insert(idKey, obj)
-			return obj, true, ErrRevisionNotEqual
-		}
 	}
 
 	table.revision++
